@@ -245,6 +245,7 @@ package graphsync
 //@   acquires {C20} graphsync.dtChannel.lk
 //@   cancellable ctx
 //@ func (*graphsync.dtChannel).shutdown {C20}
+//@   prompt {C20} -- stopping does not hang on a channel: the cancel answer is always promised
 //@   requires ctx != nil
 //@   modifies c.requestID
 //@   acquires {C20} graphsync.dtChannel.lk
